@@ -57,3 +57,51 @@ func controlConfine(c *an.Ctx) bool {
 		"reachability on the fixture does not match expectations")
 	return ok
 }
+
+// controlGuard: A2 on fixtures/guard.
+func controlGuard(c *an.Ctx) bool {
+	p := fixtures(c)
+	if p == nil {
+		return false
+	}
+	const pk = "verif/checker/fixtures/guard."
+	check := p.Func(pk + "check")
+	act := p.Func(pk + "act")
+	if check == nil || act == nil {
+		c.Control("A2 fixture anchors", false, "check/act not found")
+		return false
+	}
+	base := []*an.Guard{an.GuardForFuncs("check", funcObj(check))}
+	var cands []*ssa.Function
+	for _, f := range p.RepoSrcFuncs() {
+		cands = append(cands, f)
+	}
+	guards, wr := an.DiscoverWrappers(cands, base, 3, nil)
+	isAct := func(in ssa.Instruction) bool { return isCallTo(in, funcObj(act)) }
+	ok := true
+	detail := ""
+	for _, tc := range []struct {
+		fn    string
+		holds bool
+	}{
+		{"GoodDirect", true}, {"GoodWrapped", true}, {"GoodShortCircuit", true}, {"GoodSwitch", true}, {"GoodNamedResult", true},
+		{"BadNoCheck", false}, {"BadIgnoredResult", false}, {"BadOneBranch", false}, {"BadCheckAfter", false}, {"BadWrongPolarity", false},
+	} {
+		fn := p.Func(pk + tc.fn)
+		if fn == nil {
+			ok, detail = false, detail+" missing "+tc.fn
+			continue
+		}
+		v := an.Guarded(p, fn, guards, isAct, false)
+		got := v.Holds && v.GuardSites > 0
+		if got != tc.holds {
+			ok = false
+			detail += " " + tc.fn + ": got holds=" + map[bool]string{true: "true", false: "false"}[got] + " " + v.Witness
+		}
+	}
+	if len(wr) < 2 {
+		ok, detail = false, detail+" wrappers not discovered"
+	}
+	c.Control("A2 guard: silent on 5 conforming fixtures (direct, wrapped, short-circuit, switch, named result), fires on 5 violating ones (no check, ignored result, one branch, check after, wrong polarity)", ok, detail)
+	return ok
+}
